@@ -2,6 +2,7 @@
 import hashlib
 import json
 import os
+import re
 import shutil
 
 from .. import obs, corpus, cfggen, hazard
@@ -70,11 +71,35 @@ int use(int a, int b, int c, int d)
 """
 
 
+def col1_reference(src, texts):
+    """the input has a '//' comment in column 1 directly above an indented comment line, and the only thing the second run
+    changed is that such comment lines (at most indent_comment_align_thresh = 3 columns from column 1 after the first run)
+    went to column 1"""
+    ls = src.split("\n")
+    if not any(a.startswith("//") and b.strip().startswith("//") and not b.startswith("//") for a, b in zip(ls, ls[1:])):
+        return False
+    if len(texts) < 2:
+        return False
+    l1, l2 = texts[0].split("\n"), texts[1].split("\n")
+    if len(l1) != len(l2):
+        return False
+    moved = 0
+    for k, (a, b) in enumerate(zip(l1, l2)):
+        if a == b:
+            continue
+        ind = len(a) - len(a.lstrip(" \t"))
+        if not (a.strip().startswith("//") and b == a.strip() and k > 0 and l2[k - 1].startswith("//") and len(a[:ind].expandtabs(8)) <= 3):
+            return False
+        moved += 1
+    return moved > 0
+
+
 def _job(a):
     unc, tmp, i, jid, data, lang, cfgpath, profile = a
     ext = EXT.get(lang, ".c")
     cur = data
     rcs, outs = [], []
+    texts = []
     bound = False
     for k in range(3):
         src = os.path.join(tmp, "h%d_%d%s" % (i, k, ext))
@@ -92,6 +117,8 @@ def _job(a):
         if rc != 0:
             break
         outs.append(hashlib.sha1(so).hexdigest()[:12])
+        if "|pass/" in jid:
+            texts.append(so.decode("latin-1"))
         if k == 0:
             first = so
         cur = so
@@ -105,7 +132,7 @@ def _job(a):
         obs.write(src, first)
         chk, so, se = sh([unc, "-c", cfgpath, "-q", "-l", lang, "--check", src], cwd=tmp, timeout=20)
         os.unlink(src)
-    return {"id": jid, "profile": profile, "rc": rcs, "o": outs, "chk": chk, "bound": bound}
+    return {"id": jid, "profile": profile, "rc": rcs, "o": outs, "chk": chk, "bound": bound, "texts": texts}
 
 
 def run(ctx):
@@ -144,6 +171,32 @@ def run(ctx):
         if name.startswith(("dense", "modprog", "mlprog")):
             for v in range(1 if quick else 3):
                 gen.append(("%s_dirty%d" % (name, v), dirty(ctx.rng, t), lang))
+    # the programs of the pass-level modules (alignment of assignments, trailing comments, comments on their own lines): TLC emits
+    # every program over small alphabets; their second-run behaviour is what those modules model
+    from ..extras import passprog
+    pp = passprog.programs(ctx)
+    ctx.rng.shuffle(pp)
+    for name, t in pp[:400 if quick else 6000]:
+        for p in (ctx.rng.sample(profiles, 2) if quick else profiles):
+            jid = "profile|%s|pass/%s" % (os.path.basename(p), name)
+            jobs.append((unc, tmp, len(jobs), jid, t.encode(), "C", p, True))
+            srcs[jid] = (t.encode(), "C", open(p).read())
+    st = passprog.stable_region(ctx)
+    ctx.cov["pass_models_fixed_point_in_the_profiles_region"] = st
+    for mod, v in st.items():
+        if v != "holds":
+            ctx.error("pass model %s: the fixed-point invariant fails in the profiles' region of option values" % mod)
+    # the profiles must stay inside that region (otherwise the pass models predict unstable programs for them)
+    region = {"align_assign_thresh": lambda v: v == "0", "align_enum_equ_thresh": lambda v: v == "0", "align_right_cmt_gap": lambda v: v in ("0", "1"),
+              "align_right_cmt_at_col": lambda v: v == "0", "indent_comment": lambda v: v.lower() == "true", "indent_col1_comment": lambda v: v.lower() == "false",
+              "indent_comment_align_thresh": lambda v: v == "3", "align_keep_extra_space": lambda v: v.lower() == "false"}
+    outside = []
+    for p in profiles:
+        for l in open(p, errors="replace"):
+            m = re.match(r"\s*(\w+)\s*=?\s*([^\s#]+)", l)
+            if m and m.group(1) in region and not region[m.group(1)](m.group(2)):
+                outside.append("%s: %s=%s" % (os.path.basename(p), m.group(1), m.group(2)))
+    ctx.cov["profiles_outside_the_modelled_stable_region"] = outside
     for name, t, lang in gen:
         for p in profiles:
             jid = "profile|%s|gen/%s" % (os.path.basename(p), name)
@@ -187,6 +240,10 @@ def run(ctx):
             kind, cfgname, fname = rep["id"].split("|", 2)
             for b in rep["bad"]:
                 sig = "%s|%s|%s" % (b, cfgname, fname)
+                if fname.startswith("pass/cmtindent") and col1_reference(data.decode("latin-1"), e.get("texts") or []):
+                    # one recorded mechanism for the whole family (CmtIndent.tla: Stable fails when the block's column is within the
+                    # threshold of column 1): identified by what the input holds AND by what exactly the second run moved
+                    sig = "%s|%s|comment-below-a-column-1-comment-goes-to-column-1-on-the-second-run" % (b, cfgname)
                 if rep.get("bound"):
                     nb += 1
                 ctx.violation(sig, "%s violated for %s under %s: outputs %s, statuses %s, --check %d%s%s" % (
